@@ -293,7 +293,7 @@ theorem inv_callback (f : Int → Outcome) (s : St) (id : Int) (h : Inv f s) : I
   | some t0 =>
     obtain ⟨h0m, h0id⟩ := findTask_some hf
     dsimp only
-    by_cases hc : t0.fut = .done ∧ t0.cb = false ∧ callbackAttached = true
+    by_cases hc : t0.fut = .done ∧ t0.cb = false ∧ callbackAttached = true ∧ s.storing.contains id = false
     · rw [if_pos hc]
       have uniq : ∀ t ∈ s.tasks, t.id = id → t = t0 := fun t ht e => eq_of_id_eq h.nodup ht h0m (e.trans h0id.symm)
       -- the flush state is not touched: the loop iterates over a snapshot
@@ -314,12 +314,14 @@ theorem inv_callback (f : Int → Outcome) (s : St) (id : Int) (h : Inv f s) : I
         rw [ids_updTask (g := fun t => { t with cb := true }) (fun _ => rfl)]
         exact h.nodup
       · intro t' ht' hcb
-        show t'.id ∈ (callback s.th id).pending
+        show t'.id ∈ (callback s.th id).pending ∨ t'.id ∈ s.storing
         obtain ⟨t, ht, rfl⟩ := mem_updTask.mp ht'
         by_cases e : t.id = id
         · rw [if_pos e] at hcb; simp at hcb
         · rw [if_neg e] at hcb ⊢
-          exact callback_pending_mem _ _ _ (h.pend t ht hcb) e
+          rcases h.pend t ht hcb with hp | hp
+          · exact Or.inl (callback_pending_mem _ _ _ hp e)
+          · exact Or.inr hp
       · intro t' ht' hcb
         obtain ⟨t, ht, rfl⟩ := mem_updTask.mp ht'
         by_cases e : t.id = id
@@ -342,24 +344,24 @@ theorem inv_callback (f : Int → Outcome) (s : St) (id : Int) (h : Inv f s) : I
         by_cases e : t.id = id
         · rw [if_pos e] at hq' ⊢; exact h.onceD t ht hq'
         · rw [if_neg e] at hq' ⊢; exact h.onceD t ht hq'
-      · intro hc todo hw
-        refine ⟨by show (callback s.th id).isOpen = false; rw [callback_isOpen]; exact (h.closedW hc todo hw).1, ?_⟩
+      · intro hcl todo hw
+        refine ⟨by show (callback s.th id).isOpen = false; rw [callback_isOpen]; exact (h.closedW hcl todo hw).1, ?_⟩
         intro t' ht' hnd
         obtain ⟨t, ht, rfl⟩ := mem_updTask.mp ht'
         by_cases e : t.id = id
-        · rw [if_pos e] at hnd ⊢; exact (h.closedW hc todo hw).2 t ht hnd
-        · rw [if_neg e] at hnd ⊢; exact (h.closedW hc todo hw).2 t ht hnd
-      · intro hc hw
-        refine ⟨by show (callback s.th id).isOpen = false; rw [callback_isOpen]; exact (h.closedR hc hw).1, ?_⟩
+        · rw [if_pos e] at hnd ⊢; exact (h.closedW hcl todo hw).2 t ht hnd
+        · rw [if_neg e] at hnd ⊢; exact (h.closedW hcl todo hw).2 t ht hnd
+      · intro hcl hw
+        refine ⟨by show (callback s.th id).isOpen = false; rw [callback_isOpen]; exact (h.closedR hcl hw).1, ?_⟩
         intro t' ht'
         obtain ⟨t, ht, rfl⟩ := mem_updTask.mp ht'
         by_cases e : t.id = id
-        · rw [if_pos e]; exact (h.closedR hc hw).2 t ht
-        · rw [if_neg e]; exact (h.closedR hc hw).2 t ht
+        · rw [if_pos e]; exact (h.closedR hcl hw).2 t ht
+        · rw [if_neg e]; exact (h.closedR hcl hw).2 t ht
     · rw [if_neg hc]; exact h
 
 theorem not_done_pending (f : Int → Outcome) (s : St) (h : Inv f s) (t : Task) (ht : t ∈ s.tasks)
-    (hnd : t.fut ≠ .done) : t.id ∈ s.th.pending := by
+    (hnd : t.fut ≠ .done) : t.id ∈ s.th.pending ∨ t.id ∈ s.storing := by
   apply h.pend t ht
   cases hcb : t.cb with
   | false => rfl
@@ -367,15 +369,22 @@ theorem not_done_pending (f : Int → Outcome) (s : St) (h : Inv f s) (t : Task)
 
 theorem inv_flushBegin (f : Int → Outcome) (s : St) (h : Inv f s) : Inv f (step f s .flushBegin) := by
   have key : Inv f { s with th := { s.th with isOpen := if flushCloses then false else s.th.isOpen },
-                            flush := .waiting s.th.pending } := by
-    refine ⟨h.jobnn, h.pos, h.nodup, h.pend, h.cbdone, h.onceQ, h.onceR, h.onceD, ?_, ?_, ?_, h.caller⟩
-    · intro hc todo hw
+                            flush := .waiting s.th.pending, overlap := s.overlap || !s.storing.isEmpty } := by
+    have hov : (s.overlap || !s.storing.isEmpty) = false → s.overlap = false ∧ s.storing = [] := by
+      intro ho
+      simp only [Bool.or_eq_false_iff, Bool.not_eq_false', List.isEmpty_iff] at ho
+      exact ho
+    refine ⟨h.jobnn, h.pos, h.nodup, h.pend, h.cbdone, h.onceQ, h.onceR, h.onceD, ?_, ?_, ?_, ?_, h.caller⟩
+    · intro ho _; exact (hov ho).2
+    · intro hcl todo hw
       simp only [Flush.waiting.injEq] at hw
       subst hw
       refine ⟨by simp [fact_flushCloses], ?_⟩
       intro t ht hnd
-      exact not_done_pending f s h t ht hnd
-    · intro hw; simp at hw
+      rcases not_done_pending f s h t ht hnd with hp | hp
+      · exact hp
+      · rw [(hov hcl.1).2] at hp; simp at hp
+    · intro _ hw; simp at hw
     · intro e; simp
   simp only [step]
   split
@@ -387,12 +396,12 @@ theorem inv_flushWait (f : Int → Outcome) (s : St) (h : Inv f s) : Inv f (step
   simp only [step]
   split
   · rename_i id rest hfl
-    have hw := h.closedW (id :: rest) hfl
-    have next : Inv f { s with flush := .waiting rest } → True := fun _ => trivial
     have mk : (∀ t ∈ s.tasks, t.id = id → t.fut = .done) → Inv f { s with flush := .waiting rest } := by
       intro hd
-      refine ⟨h.jobnn, h.pos, h.nodup, h.pend, h.cbdone, h.onceQ, h.onceR, h.onceD, ?_, ?_, ?_, h.caller⟩
-      · intro todo hw'
+      refine ⟨h.jobnn, h.pos, h.nodup, h.pend, h.cbdone, h.onceQ, h.onceR, h.onceD, h.storingOpen, ?_, ?_, ?_,
+        h.caller⟩
+      · intro hcl todo hw'
+        have hw := h.closedW hcl (id :: rest) hfl
         simp only [Flush.waiting.injEq] at hw'
         subst hw'
         refine ⟨hw.1, ?_⟩
@@ -400,7 +409,7 @@ theorem inv_flushWait (f : Int → Outcome) (s : St) (h : Inv f s) : Inv f (step
         rcases List.mem_cons.mp (hw.2 t ht hnd) with e | e
         · exact absurd (hd t ht e) hnd
         · exact e
-      · intro hw'; simp at hw'
+      · intro _ hw'; simp at hw'
       · intro e; simp
     cases hf : findTask id s.tasks with
     | none =>
@@ -423,10 +432,11 @@ theorem inv_flushEnd (f : Int → Outcome) (s : St) (h : Inv f s) : Inv f (step 
   simp only [step]
   split
   · rename_i hfl
-    have hw := h.closedW [] hfl
-    refine ⟨h.jobnn, h.pos, h.nodup, h.pend, h.cbdone, h.onceQ, h.onceR, h.onceD, ?_, ?_, ?_, h.caller⟩
-    · intro todo hw'; simp at hw'
-    · intro _
+    refine ⟨h.jobnn, h.pos, h.nodup, h.pend, h.cbdone, h.onceQ, h.onceR, h.onceD, h.storingOpen, ?_, ?_, ?_,
+      h.caller⟩
+    · intro _ todo hw'; simp at hw'
+    · intro hcl _
+      have hw := h.closedW hcl [] hfl
       refine ⟨hw.1, ?_⟩
       intro t ht
       by_cases hd : t.fut = .done
@@ -435,9 +445,197 @@ theorem inv_flushEnd (f : Int → Outcome) (s : St) (h : Inv f s) : Inv f (step 
     · intro e; simp
   · exact h
 
+/-- a wait of flush gives up: nothing but the flush position and the ghost flag change -/
+theorem inv_flushTimeout (f : Int → Outcome) (s : St) (h : Inv f s) : Inv f (step f s .flushTimeout) := by
+  simp only [step]
+  split
+  · rename_i id rest hfl
+    cases hf : findTask id s.tasks with
+    | none => exact h
+    | some t0 =>
+      dsimp only
+      by_cases hd : t0.fut = .done
+      · rw [if_pos hd]; exact h
+      · rw [if_neg hd, if_pos (fact_catches .exc)]
+        refine ⟨h.jobnn, h.pos, h.nodup, h.pend, h.cbdone, h.onceQ, h.onceR, h.onceD, h.storingOpen, ?_, ?_, ?_,
+          h.caller⟩
+        · intro hcl; exact absurd hcl.2 (by simp)
+        · intro hcl; exact absurd hcl.2 (by simp)
+        · intro e; simp
+  · exact h
+
+theorem pushBegin_closed (s : St) (h : s.th.isOpen = false) : pushBegin s = { s with refused := s.refused + 1 } := by
+  simp [pushBegin, fact_viaSubmit, fact_noInline, submitAccept, h, fact_refuses]
+
+theorem pushBegin_open (s : St) (h : s.th.isOpen = true) :
+    pushBegin s = { s with
+      th := { s.th with jobId := s.th.jobId + 1, accepted := s.th.accepted ++ [s.th.jobId + 1] },
+      tasks := s.tasks ++ [⟨s.th.jobId + 1, .queued, false, [], 0⟩],
+      storing := s.storing ++ [s.th.jobId + 1] } := by
+  simp [pushBegin, fact_viaSubmit, fact_noInline, submitAccept, h, fact_accepts, nextId]
+
+theorem inv_pushBegin (f : Int → Outcome) (s : St) (h : Inv f s) : Inv f (pushBegin s) := by
+  cases ho : s.th.isOpen with
+  | false =>
+    rw [pushBegin_closed s ho]
+    exact ⟨h.jobnn, h.pos, h.nodup, h.pend, h.cbdone, h.onceQ, h.onceR, h.onceD, h.storingOpen, h.closedW, h.closedR,
+      h.noraise, h.caller⟩
+  | true =>
+    rw [pushBegin_open s ho]
+    have hj := h.jobnn
+    refine ⟨?_, ?_, ?_, ?_, ?_, ?_, ?_, ?_, ?_, ?_, ?_, h.noraise, h.caller⟩
+    · show 0 ≤ s.th.jobId + 1; omega
+    · intro t ht
+      show 0 < t.id ∧ t.id ≤ s.th.jobId + 1
+      rcases List.mem_append.mp ht with ht | ht
+      · have := h.pos t ht; omega
+      · simp only [List.mem_singleton] at ht; subst ht; simp only; omega
+    · show ((s.tasks ++ [(⟨s.th.jobId + 1, .queued, false, [], 0⟩ : Task)]).map (·.id)).Nodup
+      rw [List.map_append, List.nodup_append]
+      refine ⟨h.nodup, by simp, ?_⟩
+      intro a ha b hb
+      simp only [List.map_cons, List.map_nil, List.mem_singleton] at hb
+      obtain ⟨t, ht, rfl⟩ := List.mem_map.mp ha
+      have := h.pos t ht
+      omega
+    · intro t ht hcb
+      show t.id ∈ s.th.pending ∨ t.id ∈ s.storing ++ [s.th.jobId + 1]
+      rcases List.mem_append.mp ht with ht | ht
+      · rcases h.pend t ht hcb with hp | hp
+        · exact Or.inl hp
+        · exact Or.inr (List.mem_append_left _ hp)
+      · simp only [List.mem_singleton] at ht; subst ht; simp
+    · intro t ht hcb
+      rcases List.mem_append.mp ht with ht | ht
+      · exact h.cbdone t ht hcb
+      · simp only [List.mem_singleton] at ht; subst ht; simp at hcb
+    · intro t ht hq
+      rcases List.mem_append.mp ht with ht | ht
+      · exact h.onceQ t ht hq
+      · simp only [List.mem_singleton] at ht; subst ht; simp
+    · intro t ht w hq
+      rcases List.mem_append.mp ht with ht | ht
+      · exact h.onceR t ht w hq
+      · simp only [List.mem_singleton] at ht; subst ht; simp at hq
+    · intro t ht hq
+      rcases List.mem_append.mp ht with ht | ht
+      · exact h.onceD t ht hq
+      · simp only [List.mem_singleton] at ht; subst ht; simp at hq
+    · intro _ hcl
+      have : s.th.isOpen = false := hcl
+      rw [ho] at this; simp at this
+    · intro hc todo hw
+      have := (h.closedW hc todo hw).1
+      rw [ho] at this; simp at this
+    · intro hc hw
+      have := (h.closedR hc hw).1
+      rw [ho] at this; simp at this
+
+theorem submitStore_eq (th : TH) (id : Int) : submitStore th id = { th with pending := th.pending ++ [id] } := rfl
+
+theorem inv_pushStore (f : Int → Outcome) (s : St) (id : Int) (h : Inv f s) : Inv f (step f s (.pushStore id)) := by
+  simp only [step]
+  by_cases hin : s.storing.contains id = true
+  · rw [if_pos hin]
+    have hmem : id ∈ s.storing := by simpa using hin
+    -- a push in its window means the handler is open, or a flush overlapped it
+    have hopen : s.overlap = false → s.th.isOpen = true := by
+      intro ho
+      cases hio : s.th.isOpen with
+      | true => rfl
+      | false => rw [h.storingOpen ho hio] at hmem; simp at hmem
+    have base : Inv f { s with storing := s.storing.erase id, th := submitStore s.th id } := by
+      rw [submitStore_eq]
+      refine ⟨h.jobnn, h.pos, h.nodup, ?_, h.cbdone, h.onceQ, h.onceR, h.onceD, ?_, ?_, ?_, h.noraise, h.caller⟩
+      · intro t ht hcb
+        show t.id ∈ s.th.pending ++ [id] ∨ t.id ∈ s.storing.erase id
+        by_cases e : t.id = id
+        · left; rw [e]; simp
+        · rcases h.pend t ht hcb with hp | hp
+          · exact Or.inl (List.mem_append_left _ hp)
+          · exact Or.inr ((List.mem_erase_of_ne e).mpr hp)
+      · intro ho hcl
+        have := hopen ho
+        rw [show s.th.isOpen = false from hcl] at this; simp at this
+      · intro hcl todo hw
+        have := (h.closedW hcl todo hw).1
+        rw [hopen hcl.1] at this; simp at this
+      · intro hcl hw
+        have := (h.closedR hcl hw).1
+        rw [hopen hcl.1] at this; simp at this
+    dsimp only
+    cases hf : findTask id s.tasks with
+    | none => exact base
+    | some t0 =>
+      obtain ⟨h0m, h0id⟩ := findTask_some hf
+      dsimp only
+      by_cases hd : t0.fut = .done ∧ callbackAttached = true
+      · rw [if_pos hd]
+        have uniq : ∀ t ∈ s.tasks, t.id = id → t = t0 :=
+          fun t ht e => eq_of_id_eq h.nodup ht h0m (e.trans h0id.symm)
+        refine ⟨?_, ?_, ?_, ?_, ?_, ?_, ?_, ?_, ?_, ?_, ?_, base.noraise, base.caller⟩
+        · show 0 ≤ (callback (submitStore s.th id) id).jobId; rw [callback_jobId]; exact base.jobnn
+        · intro t' ht'
+          show 0 < t'.id ∧ t'.id ≤ (callback (submitStore s.th id) id).jobId
+          rw [callback_jobId]
+          obtain ⟨t, ht, rfl⟩ := mem_updTask.mp ht'
+          have := base.pos t ht
+          split <;> exact this
+        · show ((updTask id (fun t => { t with cb := true }) s.tasks).map (·.id)).Nodup
+          rw [ids_updTask (g := fun t => { t with cb := true }) (fun _ => rfl)]
+          exact h.nodup
+        · intro t' ht' hcb
+          show t'.id ∈ (callback (submitStore s.th id) id).pending ∨ t'.id ∈ s.storing.erase id
+          obtain ⟨t, ht, rfl⟩ := mem_updTask.mp ht'
+          by_cases e : t.id = id
+          · rw [if_pos e] at hcb; simp at hcb
+          · rw [if_neg e] at hcb ⊢
+            rcases base.pend t ht hcb with hp | hp
+            · exact Or.inl (callback_pending_mem _ _ _ hp e)
+            · exact Or.inr hp
+        · intro t' ht' hcb
+          obtain ⟨t, ht, rfl⟩ := mem_updTask.mp ht'
+          by_cases e : t.id = id
+          · rw [if_pos e]
+            show t.fut = .done
+            rw [uniq t ht e]; exact hd.1
+          · rw [if_neg e] at hcb ⊢; exact h.cbdone t ht hcb
+        · intro t' ht' hq'
+          obtain ⟨t, ht, rfl⟩ := mem_updTask.mp ht'
+          by_cases e : t.id = id
+          · rw [if_pos e] at hq' ⊢; exact h.onceQ t ht hq'
+          · rw [if_neg e] at hq' ⊢; exact h.onceQ t ht hq'
+        · intro t' ht' w' hq'
+          obtain ⟨t, ht, rfl⟩ := mem_updTask.mp ht'
+          by_cases e : t.id = id
+          · rw [if_pos e] at hq' ⊢; exact h.onceR t ht w' hq'
+          · rw [if_neg e] at hq' ⊢; exact h.onceR t ht w' hq'
+        · intro t' ht' hq'
+          obtain ⟨t, ht, rfl⟩ := mem_updTask.mp ht'
+          by_cases e : t.id = id
+          · rw [if_pos e] at hq' ⊢; exact h.onceD t ht hq'
+          · rw [if_neg e] at hq' ⊢; exact h.onceD t ht hq'
+        · intro ho hcl
+          have hcl' : s.th.isOpen = false := by
+            have : (callback (submitStore s.th id) id).isOpen = false := hcl
+            rw [callback_isOpen] at this; exact this
+          have := hopen ho
+          rw [hcl'] at this; simp at this
+        · intro hcl todo hw
+          have := (h.closedW hcl todo hw).1
+          rw [hopen hcl.1] at this; simp at this
+        · intro hcl hw
+          have := (h.closedR hcl hw).1
+          rw [hopen hcl.1] at this; simp at this
+      · rw [if_neg hd]; exact base
+  · rw [if_neg hin]; exact h
+
 theorem inv_step (f : Int → Outcome) (s : St) (st : Step) (h : Inv f s) : Inv f (step f s st) := by
   cases st with
   | push => exact inv_push f s h
+  | pushBegin => exact inv_pushBegin f s h
+  | pushStore id => exact inv_pushStore f s id h
+  | flushTimeout => exact inv_flushTimeout f s h
   | start id w => exact inv_start f s id w h
   | finish id => exact inv_finish f s id h
   | callback id => exact inv_callback f s id h
